@@ -1,11 +1,602 @@
 package p20
 
-import "verifharness/core"
+import (
+	"bytes"
+	"crypto/sha256"
+	"encoding/hex"
+	"fmt"
+	"math"
+	"strconv"
+	"strings"
 
-// bloom-filter part of C20 (ops "bloom…"): f[0] is the op.
+	"github.com/btcsuite/btcd/btcutil/v2"
+	"github.com/btcsuite/btcd/btcutil/v2/bloom"
+	"github.com/btcsuite/btcd/chainhash/v2"
+	"github.com/btcsuite/btcd/txscript/v2"
+	"github.com/btcsuite/btcd/wire/v2"
+	"verifharness/core"
+)
 
-func factsBloom() []core.Fact { return nil }
+// bloom-filter part of C20 (ops "bloom…"): f[0] is the op. Protocol: see lean/BV/C20/DriverBloom.lean.
 
-func execBloom(f []string) string { return "unimplemented" }
+func factsBloom() []core.Fact {
+	return []core.Fact{
+		{Name: "maxFilterLoadFilterSize", Value: int64(wire.MaxFilterLoadFilterSize)},
+		{Name: "maxFilterLoadHashFuncs", Value: int64(wire.MaxFilterLoadHashFuncs)},
+		{Name: "bloomUpdateNone", Value: int64(wire.BloomUpdateNone)},
+		{Name: "bloomUpdateAll", Value: int64(wire.BloomUpdateAll)},
+		{Name: "bloomUpdateP2PubkeyOnly", Value: int64(wire.BloomUpdateP2PubkeyOnly)},
+		{Name: "outPointSize", Value: int64(chainhash.HashSize + 4)},
+	}
+}
 
-func genBloom(g *core.Gen) {}
+// ---------------------------------------------------------------- exec
+
+const bloomMaxFuncs = 100000
+
+func u32tok(s string) (uint32, bool) {
+	v, err := strconv.ParseUint(s, 10, 32)
+	return uint32(v), err == nil
+}
+
+func bloomBitsTok(b []byte) string {
+	if len(b) <= 128 {
+		return hexTok(b)
+	}
+	h := sha256.Sum256(b)
+	return fmt.Sprintf("len:%d:%s", len(b), hex.EncodeToString(h[:]))
+}
+
+func bloomHash32(s string) (*chainhash.Hash, bool) {
+	b, err := hex.DecodeString(s)
+	if err != nil || len(b) != chainhash.HashSize {
+		return nil, false
+	}
+	var h chainhash.Hash
+	copy(h[:], b)
+	return &h, true
+}
+
+func pushesTok(script []byte) string {
+	ps, err := txscript.PushedData(script)
+	if err != nil {
+		return "!"
+	}
+	if len(ps) == 0 {
+		return "."
+	}
+	ss := make([]string, len(ps))
+	for i, p := range ps {
+		ss[i] = hexTok(p)
+	}
+	return strings.Join(ss, "+")
+}
+
+// txView renders the abstract view of a transaction that the Lean model consumes:
+// <txid>:<outs>:<ins> (see DriverBloom.lean).
+func txView(tx *btcutil.Tx) string {
+	m := tx.MsgTx()
+	outs := make([]string, len(m.TxOut))
+	for i, o := range m.TxOut {
+		c := "o"
+		if cl := txscript.GetScriptClass(o.PkScript); cl == txscript.PubKeyTy || cl == txscript.MultiSigTy {
+			c = "k"
+		}
+		outs[i] = c + "/" + pushesTok(o.PkScript)
+	}
+	ins := make([]string, len(m.TxIn))
+	for i, in := range m.TxIn {
+		ins[i] = fmt.Sprintf("%s/%d/%s", hex.EncodeToString(in.PreviousOutPoint.Hash[:]), in.PreviousOutPoint.Index,
+			pushesTok(in.SignatureScript))
+	}
+	os, is := strings.Join(outs, ","), strings.Join(ins, ",")
+	if len(outs) == 0 {
+		os = "."
+	}
+	if len(ins) == 0 {
+		is = "."
+	}
+	return hex.EncodeToString(tx.Hash()[:]) + ":" + os + ":" + is
+}
+
+func txOpTok(m *wire.MsgTx) string {
+	var buf bytes.Buffer
+	if err := m.SerializeNoWitness(&buf); err != nil {
+		panic(err)
+	}
+	tx, err := btcutil.NewTxFromBytes(buf.Bytes())
+	if err != nil {
+		panic(err)
+	}
+	return "tx:" + hex.EncodeToString(buf.Bytes()) + ":" + txView(tx)
+}
+
+// runBloomOps applies the op sequence to the REAL filter and renders the canonical answer.
+func runBloomOps(flt *bloom.Filter, ops string) string {
+	var res strings.Builder
+	if ops != "." {
+		for _, op := range strings.Split(ops, ";") {
+			p := strings.Split(op, ":")
+			switch {
+			case p[0] == "a" && len(p) == 2:
+				flt.Add(unhex(p[1]))
+			case p[0] == "m" && len(p) == 2:
+				res.WriteString(bit(flt.Matches(unhex(p[1]))))
+			case (p[0] == "ao" || p[0] == "mo") && len(p) == 3:
+				h, ok1 := bloomHash32(p[1])
+				idx, ok2 := u32tok(p[2])
+				if !ok1 || !ok2 {
+					return "bad-op"
+				}
+				op := wire.NewOutPoint(h, idx)
+				if p[0] == "ao" {
+					flt.AddOutPoint(op)
+				} else {
+					res.WriteString(bit(flt.MatchesOutPoint(op)))
+				}
+			case p[0] == "tx" && len(p) == 5:
+				raw, err := hex.DecodeString(p[1])
+				if err != nil {
+					return "bad-op"
+				}
+				tx, err := btcutil.NewTxFromBytes(raw)
+				if err != nil {
+					return "bad-op"
+				}
+				// the abstract view on the line must be the view of the raw transaction
+				if txView(tx) != strings.Join(p[2:], ":") {
+					return "bad-view"
+				}
+				res.WriteString(bit(flt.MatchTxAndUpdate(tx)))
+			default:
+				return "bad-op"
+			}
+		}
+	}
+	r := res.String()
+	if r == "" {
+		r = "-"
+	}
+	msg := flt.MsgFilterLoad()
+	if msg == nil {
+		if flt.IsLoaded() {
+			return "err:loaded-nil"
+		}
+		return "r=" + r + " f=nil"
+	}
+	return fmt.Sprintf("r=%s f=%s k=%d t=%d fl=%d", r, bloomBitsTok(msg.Filter), msg.HashFuncs, msg.Tweak, uint8(msg.Flags))
+}
+
+func execBloom(f []string) string {
+	switch {
+	case f[0] == "bloommm" && len(f) == 3:
+		seed, ok := u32tok(f[1])
+		if !ok {
+			return "bad-op"
+		}
+		return strconv.FormatUint(uint64(bloom.MurmurHash3(seed, unhex(f[2]))), 10)
+	case f[0] == "bloom" && len(f) == 6:
+		k, ok1 := u32tok(f[2])
+		t, ok2 := u32tok(f[3])
+		fl, err := strconv.ParseUint(f[4], 10, 8)
+		if !ok1 || !ok2 || err != nil {
+			return "bad-op"
+		}
+		if k > bloomMaxFuncs {
+			return "skip"
+		}
+		if f[1] == "nil" {
+			return runBloomOps(bloom.LoadFilter(nil), f[5])
+		}
+		var bits []byte
+		if strings.HasPrefix(f[1], "z") {
+			n, err := strconv.Atoi(f[1][1:])
+			if err != nil || n < 0 || n > 1000000 {
+				return "bad-op"
+			}
+			bits = make([]byte, n)
+		} else {
+			bits = unhex(f[1])
+		}
+		msg := wire.NewMsgFilterLoad(bits, k, t, wire.BloomUpdateType(fl))
+		return runBloomOps(bloom.LoadFilter(msg), f[5])
+	case f[0] == "bloomnew" && len(f) == 8:
+		el, ok1 := u32tok(f[1])
+		fpb, err1 := strconv.ParseUint(f[2], 16, 64)
+		t, ok2 := u32tok(f[3])
+		fl, err2 := strconv.ParseUint(f[4], 10, 8)
+		size, err3 := strconv.Atoi(f[5])
+		k, err4 := strconv.Atoi(f[6])
+		if !ok1 || !ok2 || err1 != nil || err2 != nil || err3 != nil || err4 != nil {
+			return "bad-op"
+		}
+		flt := bloom.NewFilter(el, t, math.Float64frombits(fpb), wire.BloomUpdateType(fl))
+		msg := flt.MsgFilterLoad()
+		if len(msg.Filter) != size || int(msg.HashFuncs) != k {
+			return fmt.Sprintf("shape:%d:%d", len(msg.Filter), msg.HashFuncs)
+		}
+		return runBloomOps(flt, f[7])
+	}
+	return "bad-op"
+}
+
+// ---------------------------------------------------------------- generation
+
+var bloomSizes = []int64{1, 2, 3, 7, 8, 9, 255, 256}
+var bloomFuncs = []int64{0, 1, 2, 50, 51}
+var bloomTweaks = []uint32{0, 0xffffffff, 1, 0x80000000, 2147483649, 0x00000005}
+
+func bloomRandSize(r *core.Rand) int {
+	switch r.Intn(10) {
+	case 0, 1:
+		return int(bloomSizes[r.Intn(len(bloomSizes))])
+	case 2:
+		return 65 + r.Intn(400)
+	}
+	return 1 + r.Intn(64)
+}
+
+func bloomRandFuncs(r *core.Rand) uint32 {
+	switch r.Intn(10) {
+	case 0, 1, 2:
+		return uint32(bloomFuncs[r.Intn(len(bloomFuncs))])
+	case 3:
+		return uint32(52 + r.Intn(200))
+	}
+	return uint32(1 + r.Intn(20))
+}
+
+func bloomRandTweak(r *core.Rand) uint32 {
+	if r.Chance(1, 3) {
+		return bloomTweaks[r.Intn(len(bloomTweaks))]
+	}
+	return r.U32()
+}
+
+func bloomRandFlags(r *core.Rand) int {
+	switch r.Intn(8) {
+	case 0:
+		return int(r.Pick(3, 4, 5, 6, 129, 255))
+	}
+	return r.Intn(3)
+}
+
+// initial bit field: zeros, random sparse, or all ones
+func bloomRandField(r *core.Rand, n int) string {
+	if n == 0 {
+		return "-"
+	}
+	switch r.Intn(6) {
+	case 0:
+		b := r.Bytes(n)
+		for i := range b {
+			b[i] &= byte(r.U64()) & byte(r.U64())
+		}
+		return hexTok(b)
+	case 1:
+		if n <= 16 {
+			return strings.Repeat("ff", n)
+		}
+	}
+	return "z" + strconv.Itoa(n)
+}
+
+func bloomRandIndex(r *core.Rand) uint32 {
+	switch r.Intn(5) {
+	case 0:
+		return uint32(r.Intn(4))
+	case 1:
+		return uint32(r.Pick(0x01020304, 0xffffffff, 0x80000000, 256, 65536, 0x00ff0000, 1<<24))
+	case 2:
+		return uint32(r.Intn(1000))
+	}
+	return r.U32()
+}
+
+// a sequence of add / matches ops over data of many lengths: members and non-members
+func bloomDataOps(r *core.Rand, n int, maxLen int) (ops []string, members int) {
+	var added [][]byte
+	for i := 0; i < n; i++ {
+		switch r.Intn(6) {
+		case 0, 1:
+			d := r.Bytes(r.Intn(maxLen + 1))
+			added = append(added, d)
+			ops = append(ops, "a:"+hexTok(d))
+		case 2, 3:
+			if len(added) > 0 {
+				ops = append(ops, "m:"+hexTok(added[r.Intn(len(added))]))
+				members++
+			} else {
+				ops = append(ops, "m:"+hexTok(r.Bytes(r.Intn(maxLen+1))))
+			}
+		case 4:
+			ops = append(ops, "m:"+hexTok(r.Bytes(r.Intn(maxLen+1))))
+		case 5:
+			h := hex.EncodeToString(r.Bytes(32))
+			idx := bloomRandIndex(r)
+			ops = append(ops, fmt.Sprintf("ao:%s:%d", h, idx))
+			switch r.Intn(4) {
+			case 0: // same hash, index with swapped byte order / neighbour
+				idx = idx<<24 | idx>>24 | (idx&0xff00)<<8 | (idx>>8)&0xff00
+			case 1:
+				idx++
+			}
+			ops = append(ops, fmt.Sprintf("mo:%s:%d", h, idx))
+			members++
+		}
+	}
+	return ops, members
+}
+
+func opsTok(ops []string) string {
+	if len(ops) == 0 {
+		return "."
+	}
+	return strings.Join(ops, ";")
+}
+
+// ---- transactions
+
+func bloomPubKey(r *core.Rand, compressed bool) []byte {
+	if compressed {
+		b := r.Bytes(33)
+		b[0] = byte(2 + r.Intn(2))
+		return b
+	}
+	b := r.Bytes(65)
+	b[0] = 4
+	return b
+}
+
+// pkScript of a random kind; most kinds carry at least one data push
+func bloomPkScript(r *core.Rand) []byte {
+	b := txscript.NewScriptBuilder()
+	switch r.Intn(12) {
+	case 0, 1: // P2PKH
+		b.AddOp(txscript.OP_DUP).AddOp(txscript.OP_HASH160).AddData(r.Bytes(20)).AddOp(txscript.OP_EQUALVERIFY).AddOp(txscript.OP_CHECKSIG)
+	case 2, 3: // P2PK
+		b.AddData(bloomPubKey(r, r.Bool())).AddOp(txscript.OP_CHECKSIG)
+	case 4, 11: // bare multisig 1-of-2 / 2-of-3
+		n := 2 + r.Intn(2)
+		b.AddInt64(int64(n - 1))
+		for i := 0; i < n; i++ {
+			b.AddData(bloomPubKey(r, r.Bool()))
+		}
+		b.AddInt64(int64(n)).AddOp(txscript.OP_CHECKMULTISIG)
+	case 5: // P2SH
+		b.AddOp(txscript.OP_HASH160).AddData(r.Bytes(20)).AddOp(txscript.OP_EQUAL)
+	case 6: // P2WPKH / P2WSH
+		b.AddOp(txscript.OP_0).AddData(r.Bytes(int(r.Pick(20, 32))))
+	case 7: // null data
+		b.AddOp(txscript.OP_RETURN).AddData(r.Bytes(r.Intn(40)))
+	case 8: // truncated push: PushedData fails
+		s := append([]byte{txscript.OP_DUP, byte(10 + r.Intn(60))}, r.Bytes(r.Intn(9))...)
+		return s
+	case 9: // no push at all / empty
+		if r.Bool() {
+			return nil
+		}
+		return []byte{txscript.OP_DUP, txscript.OP_1, txscript.OP_ADD}
+	case 10: // odd pushes: OP_0, PUSHDATA1, tiny
+		b.AddOp(txscript.OP_0).AddData(r.Bytes(1 + r.Intn(3))).AddData(r.Bytes(76 + r.Intn(10)))
+	}
+	s, err := b.Script()
+	if err != nil {
+		return nil
+	}
+	return s
+}
+
+func bloomSigScript(r *core.Rand) []byte {
+	b := txscript.NewScriptBuilder()
+	switch r.Intn(5) {
+	case 0, 1:
+		b.AddData(r.Bytes(70 + r.Intn(3))).AddData(bloomPubKey(r, r.Bool()))
+	case 2:
+		b.AddData(r.Bytes(71))
+	case 3:
+		return append([]byte{0x4c, 0x50}, r.Bytes(r.Intn(20))...) // PUSHDATA1 80 truncated
+	case 4:
+		return nil
+	}
+	s, _ := b.Script()
+	return s
+}
+
+func bloomRandTx(r *core.Rand) *wire.MsgTx {
+	tx := wire.NewMsgTx(int32(1 + r.Intn(2)))
+	nin := 1 + r.Intn(3)
+	for i := 0; i < nin; i++ {
+		var h chainhash.Hash
+		copy(h[:], r.Bytes(32))
+		tx.AddTxIn(wire.NewTxIn(wire.NewOutPoint(&h, bloomRandIndex(r)), bloomSigScript(r), nil))
+	}
+	nout := r.Intn(5)
+	if r.Chance(1, 10) {
+		nout = 5 + r.Intn(5)
+	}
+	for i := 0; i < nout; i++ {
+		tx.AddTxOut(wire.NewTxOut(int64(r.Intn(100000)), bloomPkScript(r)))
+	}
+	tx.LockTime = uint32(r.Intn(3))
+	return tx
+}
+
+// one tx scenario: seed the filter with something the tx contains (or not), run the tx, probe outpoints
+func bloomTxOps(r *core.Rand) (ops []string, class string) {
+	m := bloomRandTx(r)
+	utx := btcutil.NewTx(m)
+	txid := utx.Hash()
+	class = "bloom-tx-none"
+	nseed := 1 + r.Intn(2)
+	for s := 0; s < nseed; s++ {
+		switch r.Intn(7) {
+		case 0: // the txid
+			ops = append(ops, "a:"+hex.EncodeToString(txid[:]))
+			class = "bloom-tx-txid"
+		case 1, 2: // a pushed element of an output script
+			if len(m.TxOut) > 0 {
+				o := m.TxOut[r.Intn(len(m.TxOut))]
+				if r.Bool() { // prefer a pay-to-pubkey / bare multisig output (what P2PubkeyOnly selects)
+					for _, c := range m.TxOut {
+						if cl := txscript.GetScriptClass(c.PkScript); cl == txscript.MultiSigTy || (cl == txscript.PubKeyTy && r.Bool()) {
+							o = c
+							break
+						}
+					}
+				}
+				if ps, err := txscript.PushedData(o.PkScript); err == nil && len(ps) > 0 {
+					ops = append(ops, "a:"+hexTok(ps[r.Intn(len(ps))]))
+					class = "bloom-tx-outpush"
+				}
+			}
+		case 3: // a spent outpoint
+			in := m.TxIn[r.Intn(len(m.TxIn))]
+			ops = append(ops, fmt.Sprintf("ao:%s:%d", hex.EncodeToString(in.PreviousOutPoint.Hash[:]), in.PreviousOutPoint.Index))
+			class = "bloom-tx-prevout"
+		case 4: // a pushed element of a signature script
+			in := m.TxIn[r.Intn(len(m.TxIn))]
+			if ps, err := txscript.PushedData(in.SignatureScript); err == nil && len(ps) > 0 {
+				ops = append(ops, "a:"+hexTok(ps[r.Intn(len(ps))]))
+				class = "bloom-tx-inpush"
+			}
+		case 5: // unrelated data
+			ops = append(ops, "a:"+hexTok(r.Bytes(r.Intn(33))))
+		case 6: // nothing
+		}
+	}
+	ops = append(ops, txOpTok(m))
+	// probe: outpoints of every output (updated or not), one index beyond, the txid, a second run
+	for i := 0; i <= len(m.TxOut) && i < 6; i++ {
+		ops = append(ops, fmt.Sprintf("mo:%s:%d", hex.EncodeToString(txid[:]), i))
+	}
+	if r.Chance(1, 3) {
+		ops = append(ops, txOpTok(m))
+	}
+	if r.Chance(1, 3) { // a spender of this tx: matched through the auto-inserted outpoint
+		sp := bloomRandTx(r)
+		sp.TxIn[0].PreviousOutPoint = *wire.NewOutPoint(txid, uint32(r.Intn(len(m.TxOut)+1)))
+		ops = append(ops, txOpTok(sp))
+	}
+	return ops, class
+}
+
+func genBloom(g *core.Gen) {
+	r := g.R
+	// raw murmur: every tail length, seeds incl. the BIP37 multiples
+	seeds := []uint32{0, 1, 0xffffffff, 0xfba4c795, 0xf7498f2a, 0x80000000}
+	for n := 0; n <= 40; n++ {
+		for j := 0; j < g.N(2, 20); j++ {
+			sd := r.U32()
+			if r.Chance(1, 3) {
+				sd = seeds[r.Intn(len(seeds))]
+			}
+			d := r.Bytes(n)
+			if r.Chance(1, 5) {
+				for i := range d {
+					d[i] = byte(r.Pick(0, 0xff, 0x80, 0x7f))
+				}
+			}
+			g.Case("bloom-murmur", true, fmt.Sprintf("C20 bloommm %d %s", sd, hexTok(d)))
+		}
+	}
+	// boundary grid: sizes × hash-function counts × tweaks, one add + member/non-member lookups
+	for _, sz := range append(append([]int64{}, bloomSizes...), 0) {
+		for _, k := range bloomFuncs {
+			for ti, t := range bloomTweaks {
+				if ti >= g.N(2, len(bloomTweaks)) {
+					break
+				}
+				d := r.Bytes(r.Intn(41))
+				fl := bloomRandFlags(r)
+				field := "z" + strconv.FormatInt(sz, 10)
+				if sz == 0 {
+					field = "-"
+				}
+				g.Case("bloom-grid", sz > 0, fmt.Sprintf("C20 bloom %s %d %d %d m:%s;a:%s;m:%s;m:%s", field, k, t, fl,
+					hexTok(d), hexTok(d), hexTok(d), hexTok(r.Bytes(r.Intn(41)))))
+			}
+		}
+	}
+	// the unloaded filter
+	for i := 0; i < g.N(3, 20); i++ {
+		ops, _ := bloomDataOps(r, 1+r.Intn(6), 40)
+		if r.Bool() {
+			o, _ := bloomTxOps(r)
+			ops = append(ops, o...)
+		}
+		g.Case("bloom-nil", false, fmt.Sprintf("C20 bloom nil %d %d %d %s", bloomRandFuncs(r), bloomRandTweak(r), bloomRandFlags(r), opsTok(ops)))
+	}
+	// the largest legal field, and one byte beyond
+	for i := 0; i < g.N(4, 40); i++ {
+		sz := r.Pick(36000, 36000, 36001, 35999)
+		k := uint32(r.Pick(0, 1, 50, 51, 11))
+		ops, mem := bloomDataOps(r, 2+r.Intn(6), 40)
+		g.Case("bloom-maxsize", mem > 0, fmt.Sprintf("C20 bloom z%d %d %d %d %s", sz, k, bloomRandTweak(r), bloomRandFlags(r), opsTok(ops)))
+	}
+	// data of every length 0..40 (murmur tails) through add/matches
+	for n := 0; n <= 40; n++ {
+		for j := 0; j < g.N(2, 12); j++ {
+			sz := bloomRandSize(r)
+			d := r.Bytes(n)
+			e := r.Bytes(n)
+			g.Case("bloom-len", true, fmt.Sprintf("C20 bloom %s %d %d %d a:%s;m:%s;m:%s", bloomRandField(r, sz), bloomRandFuncs(r),
+				bloomRandTweak(r), bloomRandFlags(r), hexTok(d), hexTok(d), hexTok(e)))
+		}
+	}
+	// random op sequences
+	for i := 0; i < g.N(700, 20000); i++ {
+		sz := bloomRandSize(r)
+		if r.Chance(1, 25) {
+			sz = 0
+		}
+		ops, mem := bloomDataOps(r, r.Intn(14), 40)
+		g.Case("bloom-ops", sz > 0 && mem > 0, fmt.Sprintf("C20 bloom %s %d %d %d %s", bloomRandField(r, sz), bloomRandFuncs(r),
+			bloomRandTweak(r), bloomRandFlags(r), opsTok(ops)))
+	}
+	// transactions against the three update modes (+ invalid flag values)
+	for i := 0; i < g.N(700, 20000); i++ {
+		sz := bloomRandSize(r)
+		if r.Chance(1, 3) {
+			sz = 20 + r.Intn(200) // fewer false positives
+		}
+		if r.Chance(1, 40) {
+			sz = 0
+		}
+		k := bloomRandFuncs(r)
+		if r.Chance(1, 2) {
+			k = uint32(1 + r.Intn(12))
+		}
+		ops, class := bloomTxOps(r)
+		fl := bloomRandFlags(r)
+		g.Case(fmt.Sprintf("%s-fl%d", class, min(fl, 3)), sz > 0 && class != "bloom-tx-none", fmt.Sprintf("C20 bloom %s %d %d %d %s",
+			bloomRandField(r, sz), k, bloomRandTweak(r), fl, opsTok(ops)))
+	}
+	// NewFilter-created filters: the shape is observed here (float sizing is not modelled), the ops run on
+	// the NewFilter object itself
+	els := []uint32{0, 1, 2, 3, 10, 100, 1000, 20000, 100000, 1000000, 100000000, 0xffffffff}
+	fps := []float64{0, 1e-10, 1e-9, 0.000001, 0.0001, 0.01, 0.1, 0.5, 0.99, 1.0, 2.0, -1}
+	for i := 0; i < g.N(60, 2000); i++ {
+		el := els[r.Intn(len(els))]
+		fp := fps[r.Intn(len(fps))]
+		if i == 0 {
+			el, fp = 100000000, 0.01 // 36000 bytes, zero hash functions
+		}
+		if r.Chance(1, 4) {
+			el = uint32(r.Intn(3000))
+			fp = float64(r.Intn(1000)+1) / 1000
+		}
+		t, fl := bloomRandTweak(r), bloomRandFlags(r)
+		msg := bloom.NewFilter(el, t, fp, wire.BloomUpdateType(fl)).MsgFilterLoad()
+		var ops []string
+		mem := 0
+		if r.Chance(1, 3) {
+			ops, _ = bloomTxOps(r)
+			mem = 1
+		} else {
+			ops, mem = bloomDataOps(r, 1+r.Intn(8), 40)
+		}
+		g.Case("bloom-newfilter", len(msg.Filter) > 0 && mem > 0, fmt.Sprintf("C20 bloomnew %d %016x %d %d %d %d %s", el, math.Float64bits(fp), t, fl,
+			len(msg.Filter), msg.HashFuncs, opsTok(ops)))
+	}
+}
